@@ -365,6 +365,13 @@ var semExtra = []func(thorough bool) *wgen.Family{
 		}
 		return wgen.F2Mini(5, 3)
 	},
+	// loops whose continuing block is itself a statement list (nested if/else and loops) followed by break-if
+	func(thorough bool) *wgen.Family {
+		if thorough {
+			return wgen.F2Mini(5, 4)
+		}
+		return wgen.F2Mini(4, 4)
+	},
 }
 
 func runSem(be *semBackend) int {
